@@ -261,6 +261,102 @@ def run_reconnect_probe(m, rec, rng, base_id, idle=3.4):
     return rec.take()
 
 
+def run_sgx_idle(ctx, base_id, idle=11.5, clients=6):
+    """The SGX manager (HSM2DongleSGX over the unpatched TCP transport) left alone for a while, then a burst of
+    clients against a device that answers slowly: anything the dongle layer does on its own while idle (probes,
+    keep-alives) is an exchange outside any request and may collide with the first request after the pause."""
+    from sgx.hsm2dongle import HSM2DongleSGX
+    from ledger.protocol import HSM2ProtocolLedger
+    from comm.server import TCPServer
+    from ..simdev import SimDevice, MODE_SIGNER
+    from ..tcpdev import TcpDevice
+    dev = SimDevice(platform="sgx", mode=MODE_SIGNER, seed="c12sgx")
+    dev.sig_from_hash = lambda h: der_sig(hashlib.sha256(b"r" + h).digest(), hashlib.sha256(b"s" + h).digest())
+    td = TcpDevice(dev)
+    td.stall = lambda apdu: 0.25
+    events, lock, tids = [], threading.Lock(), {}
+
+    def tid():
+        i = threading.get_ident()
+        with lock:
+            return tids.setdefault(i, len(tids) + 1)
+
+    def emit(e):
+        with lock:
+            events.append(e)
+    srv = None
+    try:
+        dongle = HSM2DongleSGX("127.0.0.1", td.port, False)
+        proto = HSM2ProtocolLedger(None, dongle)
+        orig_handle = proto.handle_request
+
+        def handle_request(request):
+            rid = request.get("_verif_id", 0) if isinstance(request, dict) else 0
+            t = tid()
+            emit({"k": "begin", "r": rid, "t": t, "m": 0})
+            try:
+                return orig_handle(request)
+            finally:
+                emit({"k": "end", "r": rid, "t": t, "m": 0})
+        proto.handle_request = handle_request
+        # device-side view of the exchanges: the thread that issued it is the one inside _send_command
+        import ledgerblue.commTCP as commTCP
+        orig_exchange = commTCP.DongleServer.exchange
+        me = {"port": td.port}
+
+        def exchange(self, apdu, timeout=20000):
+            if getattr(self, "port", None) == me["port"]:
+                emit({"k": "apdu", "r": 0, "t": tid(), "m": 0})
+            return orig_exchange(self, apdu, timeout)
+        commTCP.DongleServer.exchange = exchange
+        srv = TCPServer("127.0.0.1", 0, proto)
+        th = threading.Thread(target=lambda: srv.run(), daemon=True)
+        th.start()
+        for _ in range(60000):
+            if srv.server is not None or not th.is_alive():
+                break
+            time.sleep(0.001)
+        if srv.server is None:
+            raise core.MachineryError("SGX manager over the TCP transport did not start")
+        addr = srv.server.server_address
+        with lock:
+            del events[:]
+        time.sleep(idle)
+        allr = {}
+
+        def client(i):
+            rid = base_id + i
+            try:
+                s = socket.create_connection(addr, timeout=10)
+                s.sendall(json.dumps(reqs_[i][0]).encode() + b"\n")
+                reply = read_reply(s, 60)
+            except OSError:
+                reply = None
+            emit({"k": "got", "r": rid, "t": 0, "m": reply_owner(rid, "sign_hash", reqs_[i][1], reply, dev, allr)})
+        reqs_ = {}
+        for i in range(clients):
+            req, st = make_request(base_id + i, "sign_hash", random.Random("sgxidle:%s:%d" % (ctx.seed, i)))
+            reqs_[i] = (req, st)
+            allr[base_id + i] = ("sign_hash", st)
+        ths = [threading.Thread(target=client, args=(i,)) for i in range(clients)]
+        for t in ths:
+            t.start()
+            time.sleep(0.02)
+        for t in ths:
+            t.join(90)
+        time.sleep(0.3)
+        commTCP.DongleServer.exchange = orig_exchange
+    finally:
+        try:
+            if srv is not None and srv.server is not None:
+                srv.server.shutdown()
+        except Exception:
+            pass
+        td.close()
+    with lock:
+        return list(events)
+
+
 def run_tcp_stall(ctx, rng, base_id, timeout_s=2.0, stall_s=3.0, others=4):
     """The TCP transport unpatched (real ledgerblue commTCP against a simulated device on a loopback socket):
     one exchange takes longer than the dongle timeout while other clients queue up. Whatever the manager
@@ -287,7 +383,6 @@ def run_tcp_stall(ctx, rng, base_id, timeout_s=2.0, stall_s=3.0, others=4):
         with lock:
             events.append(e)
     saved = ht.getDongle
-    ht.getDongle = commTCP.getDongle
     srv = None
     try:
         dongle = HSM2DongleTCP("127.0.0.1", td.port, False)
@@ -500,6 +595,15 @@ def run(ctx):
             slow_out["err"] = repr(e)
     slow_thread = threading.Thread(target=slow_job)
     slow_thread.start()
+    idle_out = {}
+
+    def idle_job():
+        try:
+            idle_out["ev"] = run_sgx_idle(ctx, 960000)
+        except Exception as e:   # noqa
+            idle_out["err"] = repr(e)
+    idle_thread = threading.Thread(target=idle_job)
+    idle_thread.start()
     try:
         base = 1000
         for si, sj in enumerate(uniq):
@@ -542,6 +646,13 @@ def run(ctx):
         traces.append({"id": tid, "ev": run_tcp_stall(ctx, ctx.rng, 970000)})
         info[tid] = {"scenario": "unpatched TCP transport; one exchange slower than the dongle timeout, 4 clients behind it"}
         res.coverage["tcp_transport_stall_scenarios"] = 1
+        idle_thread.join(300)
+        if "ev" not in idle_out:
+            raise core.MachineryError("idle SGX manager scenario failed: %s" % idle_out.get("err", "timeout"))
+        tid = len(traces) + 1
+        traces.append({"id": tid, "ev": idle_out["ev"]})
+        info[tid] = {"scenario": "SGX manager over the unpatched TCP transport, idle for 11.5 s, then 6 clients at once"}
+        res.coverage["idle_sgx_manager_scenarios"] = 1
         tid = len(traces) + 1
         traces.append({"id": tid, "ev": run_ui_heartbeat_mix(m, rec, random.Random("uihb:%d" % ctx.seed), 990000)})
         info[tid] = {"scenario": "uiHeartbeat with 4 clients queued behind it, 3 rounds"}
